@@ -67,10 +67,10 @@ CHECKS["C20"] = dict(
          "(compiled_init_equals_interpreted_mixed, an iff), omitted arguments take the definition's "
          "defaults (under the checked render-faithfulness hypothesis). The generator model is compared syntactically with the "
          "source text the real generators emit, for every shipped definition and generated ones, on every run; plain, compiled "
-         "and dataclass classes are built from each definition and compared on bytes and decoded fields with the real Serializer.",
+         "and dataclass classes are built from each definition and compared on bytes and decoded fields with the real Serializer. Second property file props/C20x.v (16 theorems): the interpreted VariablePayload methods, the three code generators (templates parsed at translation time), vp_compile as a straight-line program, and type_map / convert_to_payload / DataClassPayload.__new__ are translated from the AST every run (tr_vp, fail closed; module-level state aborts); gen_refines_hand_model, gen_generators_refine_model, vp_compile_is_compiled_class, compiled_defaults_are_own, compiled_depends_on_definition_only, dataclass_equals_plain, converted_dataclass_behaves_like_its_definition.",
     note="Trusted: Coq kernel; CPython call binding/compile/exec/dataclasses mean what the evaluator of the generated-code AST "
          "says (validated behaviourally); model M20_vp; the wire level is C02's.",
-    technique="Coq proof (induction over definitions) + syntactic comparison of generated code + behavioural oracle", design="5/C20")
+    technique="Coq proof (induction over definitions) over AST-translated lazy_payload / payload_dataclass (refinement) + syntactic comparison of generated code + behavioural oracle", design="5/C20")
 
 CHECKS["C16"] = dict(
     text="Coq theorems over a hand model of TokenTree/Token, for all hash and signature functions, all offer lists and all orders: "
@@ -131,7 +131,7 @@ CHECKS["C17"] = dict(
          "authority (for Attest messages only the sender's); own-chain tokens leave only in answers to the requesting peer or in "
          "user-requested disclosures and only below the position the user opened (12 theorems over arbitrary histories). Checked against "
          "real nodes on ~420 (quick) / ~6300 (thorough) scripted honest/dishonest histories with state comparison after every event, "
-         "and an independent oracle on raw packets and database rows.",
+         "and an independent oracle on raw packets and database rows. Second property file props/C17x.v (12 theorems): IdentityCommunity's consent functions (should_sign test by test, the on_* handlers, the permission snapshot, on_request_missing), the pseudonym manager's credential functions and the identity database's insert/get functions (SQL parsed, conflict test generated from the schema's primary keys) are translated from the AST every run (tr_consent, fail closed); gen_refines_hand_model (g_step = step), and the consent / no-double-sign / token-permission theorems restated over the translated code.",
     note="Trusted: harness wire decoding, injective renaming of digests/signatures/keys, json.loads, SQLite reads, C01 (peer = key), "
          "C02/C03 decoding, C16 tree model. no_double_sign assumes signing correctness and that a signature verifies under one key only. "
          "Rootedness claimed for subjects other than the node itself. Time in integer seconds. Model follows fixes 018b8e1, b6d8bb2.",
